@@ -13,6 +13,35 @@ class C01(ProgProp):
                   'arguments and the scripted reply/out-values; non-trivial = script with >=1 event; distinct = '
                   'distinct (model, cfg, script)')
 
+    def gen_scripts(self, rng, case, spec):
+        scripts = super().gen_scripts(rng, case, spec)
+        # one more script per program: the component reacts to an in-event of a (plain) provides port by raising
+        # an out-event of that port before the in-event returns - that event, too, is forwarded exactly once
+        info = case['_info']
+        origin = case['cfg']['origin']
+        ls = ['world pump=1 runtime=1 extra=0 name=re' if origin == 'import' else 'world pump=0 runtime=0 extra=0 name=re']
+        mc = spec['multiclient']
+        if mc:
+            ls.append(f'client {mc["port"]} alice')
+        ls += ['bind', 'final 0']
+        n = 0
+        for p in spec['encapsulee']['ports']:
+            if p['dir'] != 'provides' or p['sem'] is None or p['multiclient']:
+                continue
+            _p, itf = X.port_events(info, p['name'])
+            ins = [e for e in itf['events'] if e['dir'] == 'in']
+            outs = [e for e in itf['events'] if e['dir'] == 'out']
+            if not ins or not outs:
+                continue
+            for ev in rng.sample(ins, min(2, len(ins))):
+                ls.append(f'react {p["name"]} {ev["name"]} {p["name"]} {rng.choice(outs)["name"]}')
+                ls.append(' '.join(['call', p['name'], ev['name']] + X.gen_args(rng, ev)))
+                n += 1
+        if n:
+            ls.append('pump')
+            scripts.append(ls)
+        return scripts
+
     def monitor(self, case, spec, script, segs):
         info = case['_info']
         ports = {p['name']: p for p in spec['encapsulee']['ports']}
@@ -21,13 +50,18 @@ class C01(ProgProp):
         pending = []      # posted requires-out events not yet observed: (port, ev, args)
         world_ok = False
         bound = False
+        reactions = {}
         for op, pre, term, post in segs:
             t = op.split(' ')
             if t[0] == 'world':
                 world_ok = term == 'world ok'
                 replies, pending, bound = {}, [], False
+                reactions = {}
                 continue
             if not world_ok:
+                continue
+            if t[0] == 'react':
+                reactions[(t[1], t[2])] = (t[3], t[4])
                 continue
             if t[0] == 'reply':
                 replies[(t[1], t[2], t[3])] = int(t[4])
@@ -54,6 +88,16 @@ class C01(ProgProp):
             args = [int(x) for x in t[3:3 + len(ev['formals'])]]
             args += [0] * (len(ev['formals']) - len(args))
             sp = ports[pname]
+            if t[0] == 'call' and (pname, ev['name']) in reactions and not sp['multiclient']:
+                op_, oe_ = reactions[(pname, ev['name'])]
+                nested = [o for o in obs if o['who'].startswith('env') and o['port'] == op_ and o['ev'] == oe_]
+                if len(nested) != 1:
+                    failed.append(f'{op}: the out-event {op_}.{oe_} the component raised while handling the call was observed {len(nested)} times')
+                elif any(a != 0 for a in nested[0]['args']):
+                    failed.append(f'{op}: the nested out-event arrived with arguments {nested[0]["args"]}')
+                stray = [o for o in obs if o['who'].startswith('env') and o not in nested]
+                if stray:
+                    failed.append(f'{op}: stray observation {stray}')
             if t[0] == 'call':
                 who = 'comp'
                 if sp['dir'] == 'requires' and sp['sem'] == 'mts':
